@@ -22,7 +22,8 @@ PRE = ("import numpy as np, warnings, nengo, nengo_spa as spa\nfrom nengo_spa.se
        "from nengo_spa.ast.symbolic import PointerSymbol\nfrom nengo_spa.types import TVocabulary\n"
        "from nengo_spa.algebras.vtb_algebra import VtbAlgebra\nwarnings.simplefilter('ignore')\n")
 
-DIMS = [16, 16, 32, 16, 16]   # vocabulary 3 uses VTB; vocabulary 4 has no keys (an empty vocabulary is falsy in Python)
+DIMS = [16, 16, 32, 16, 16, 1, 1]   # vocabulary 3 uses VTB; vocabulary 4 has no keys (an empty vocabulary is falsy in Python); 5 and 6 are
+# two different 1-dimensional vocabularies (a 1-d output must not be mistaken for a scalar)
 
 
 def run(rep, tier, rng):
@@ -41,6 +42,13 @@ def run(rep, tier, rng):
     for v in vocs:
         v.populate("A; B")
     vocs.append(spa.Vocabulary(16, pointer_gen=np.random.RandomState(5), strict=False))      # stays empty
+    for i_ in (6, 7):
+        v1d = spa.Vocabulary(1, pointer_gen=np.random.RandomState(i_))
+        v1d.populate("A")
+        vocs.append(v1d)
+
+    def mk_state(v):
+        return spa.State(v) if v.dimensions >= 16 else spa.State(v, subdimensions=1)
     cdims = c.lst([str(d) for d in DIMS])
 
     # operand descriptors: (kind, vocab index or None, extra)
@@ -53,6 +61,9 @@ def run(rep, tier, rng):
     operands += [("KSym", 0, "linv"), ("KSym", 1, "rinv"), ("KSym", 0, "inv"), ("KSym", 1, "neg"), ("KSym", 0, "normalized"),
                  ("KDyn", 0, "neg"), ("KDyn", 1, "inv"), ("KSp", 0, "neg"), ("KSp", 1, "inv"),
                  ("KDyn", 1, "assoc-out"), ("KDyn", 0, "bind-out")]
+    # 1-d vocabularies; a dynamic operand reinterpreted without a target vocabulary (type: any vocabulary of dimension 16);
+    # a vocabulary-less pointer whose length is next to 16
+    operands += [("KDyn", 5, None), ("KDyn", 6, None), ("KSp", 6, None), ("KDyn", None, "reint-none"), ("KSp", None, "hrr17")]
     operands += [("KSp", None, "hrr16"), ("KSp", None, "vtb16"), ("KSp", None, "hrr32"), ("KSym", None, None),
                  ("KDynScalar", None, None), ("KNum", None, "int"), ("KNum", None, "np.float64"), ("KArr", None, 16)]
 
@@ -63,6 +74,8 @@ def run(rep, tier, rng):
             base_sym = PointerSymbol("A", TVocabulary(vocs[vi]))
             return {"linv": lambda: base_sym.linv(), "rinv": lambda: base_sym.rinv(), "inv": lambda: ~base_sym, "neg": lambda: -base_sym,
                     "normalized": lambda: base_sym.normalized()}[ex]()
+        if k == "KDyn" and ex == "reint-none":
+            return spa.reinterpret(as_ast_node(spa.State(vocs[0])))
         if k == "KDyn" and ex in ("neg", "inv"):
             nd = as_ast_node(spa.State(vocs[vi]))
             return -nd if ex == "neg" else ~nd
@@ -87,13 +100,13 @@ def run(rep, tier, rng):
                     return vocs[vi]["A"]
                 dd_ = vocs[vi].dimensions
                 return SemanticPointer(np.zeros(dd_) if special == "zero" else np.eye(dd_)[0], vocab=vocs[vi])
-            d = 32 if ex == "hrr32" else 16
+            d = 32 if ex == "hrr32" else (17 if ex == "hrr17" else 16)
             vec = np.arange(1.0, d + 1) if special is None else (np.zeros(d) if special == "zero" else np.eye(d)[0])
             return SemanticPointer(vec, algebra=V if ex == "vtb16" else H)
         if k == "KSym":
             return PointerSymbol("A", TVocabulary(vocs[vi])) if vi is not None else PointerSymbol("A")
         if k == "KDyn":
-            return as_ast_node(spa.State(vocs[vi]))
+            return as_ast_node(mk_state(vocs[vi]))
         if k == "KDynScalar":
             return as_ast_node(spa.Scalar())
         if k == "KNum":
@@ -106,6 +119,8 @@ def run(rep, tier, rng):
             return "TScalar"
         if k == "KArr":
             return "TAny"
+        if ex == "reint-none":
+            return "(TAnyDim 16)"
         return f"(TVoc {vi})" if vi is not None else "TAny"
 
     def dim_of(desc):
@@ -115,7 +130,9 @@ def run(rep, tier, rng):
         if vi is not None:
             return DIMS[vi]
         if k == "KSp":
-            return 32 if ex == "hrr32" else 16
+            return 32 if ex == "hrr32" else (17 if ex == "hrr17" else 16)
+        if ex == "reint-none":
+            return 16
         return None
 
     def alg_of(desc):
@@ -167,11 +184,13 @@ def run(rep, tier, rng):
                 continue
             if op == "PRouteA" and db[1] == 4:
                 continue
+            if op in ("PRouteT", "PRouteA") and db[1] in (5, 6):
+                continue
             with spa.Network():
                 try:
                     a = build(da, sa)
                     if op == "PRoute":
-                        sink = spa.State(vocs[db[1]])
+                        sink = mk_state(vocs[db[1]])
                         r = a >> sink
                     elif op == "PRouteA":
                         other_v = vocs[1] if db[1] != 1 else vocs[0]
